@@ -635,6 +635,10 @@ func NewAddressPubKey(serializedPubKey []byte, net *chaincfg.Params) (*AddressPu
 		pkFormat = PKFCompressed
 	case 0x06, 0x07:
 		pkFormat = PKFHybrid
+	case 0x04:
+		pkFormat = PKFUncompressed
+	default:
+		return nil, errors.New("unknown public key format byte")
 	}
 
 	return &AddressPubKey{
